@@ -83,7 +83,9 @@ func (p *Parser) ParseFunctionParameters() []*ast.Identifier {
 
 func (p *Parser) ParseReturnStatement() *ast.ReturnStatement {
 	stmt := &ast.ReturnStatement{Token: p.CurrentToken}
-	if p.PeekToken.Type != token.SEMICOLON && p.PeekToken.Type != token.EOF && p.PeekToken.Type != token.RBRACE {
+	// A line break after `return` ends the statement (ECMAScript restricted production):
+	// `return\nx` is `return; x`, it does not return x.
+	if p.PeekToken.Type != token.SEMICOLON && p.PeekToken.Type != token.EOF && p.PeekToken.Type != token.RBRACE && !p.PeekToken.AfterNewline {
 		p.NextToken()
 		stmt.ReturnValue = p.ParseExpression()
 	}
